@@ -7,7 +7,7 @@ from ..runner import Outcome, Part
 
 ID = "C10"
 TITLE = "Duct-to-gap mesh mapping is positive, exact on constants, conservative"
-TECHNIQUE = "property-based testing (Hypothesis) + exhaustive enumeration of ring-count pairs: differential test of _map_asm2gap against an independent interval-overlap reference model, and of the maps a real Reactor builds for generated mixed cores"
+TECHNIQUE = "property-based testing (Hypothesis) + exhaustive enumeration of ring-count pairs: differential test of _map_asm2gap against an independent interval-overlap reference model, of the transfer function map_across_gap on generated fields, and of the maps and shared gap-cell widths a real Reactor builds for generated mixed cores"
 RULE = ("pairs_exhaustive: all (region rings 1..15) x (neighbour rings 1..15) with the finer mesh on the gap side, one "
         "canonical pitch set each plus per-side mixed neighbours; generated: hypothesis draws ring counts, pitches, "
         "corner lengths per hex side (equal-count / shifted-boundary cases included); reactor_maps: maps built by "
